@@ -132,7 +132,7 @@ WellTypedItem(s, f, x, nullok) ==
   IF IsNull(x) THEN nullok
   ELSE IF f.kind = "prim" THEN
        WellTypedPrim(f.ktype, x)
-       /\ (f.ktype = "string" /\ ~FieldFlex(s, f) => Len(x.blob) <= MaxLegacyStringLen)
+       /\ (f.ktype = "string" => Len(x.blob) <= MaxStringLen)
   ELSE WellTyped(f.sub, x)
 WellTyped(s, v) ==
   /\ K(v) = "rec" /\ Len(v.rec) = Len(s.fields)
